@@ -183,6 +183,9 @@ func ParseContractFile(path string) (*ContractFile, error) {
 			return fmt.Errorf("%s:%d: %s", path, rl.line, fmt.Sprintf(f, a...))
 		}
 		switch kw {
+		case "fields":
+			// authoring-time field names of a struct type (bound by position in LoadContracts)
+			continue
 		case "func":
 			cur = &FuncContract{Key: strings.TrimSpace(rest), File: path, Line: rl.line, Arith: "bv", Opts: map[string]string{}}
 			cf.Funcs = append(cf.Funcs, cur)
